@@ -7,6 +7,7 @@ import HmcVerif.Exec.C06
 import HmcVerif.Exec.C08
 import HmcVerif.Exec.C10
 import HmcVerif.Exec.C15
+import HmcVerif.Exec.C17
 import HmcVerif.Exec.C19
 open HmcVerif
 
@@ -36,6 +37,7 @@ def dispatch (cmd : String) : Option (P String) :=
   | "c15.eval" => some C15.eval
   | "c16.tunerun" => some C02.tunerun
   | "c16.lrok" => some C02.lrok
+  | "c17.eval" => some C17.eval
   | "c19.gd" => some C19.gd
   | _ => none
 
